@@ -953,3 +953,8 @@ V("twin: Sphere matrix typed after the normalised centre, written out", "C03", C
 V("twin: Sphere matrix as a floating buffer", "C03", CURVE, "m = np.eye(center.shape[0], dtype=np.promote_types(c.dtype, type(radius)))",
   "m = np.eye(center.shape[0], dtype=np.promote_types(np.float64, center.dtype))", "silent")
 V("Ellipse matrix typed after the raw centre", "C03", CURVE, "        m = np.eye(3, dtype=d.dtype)", "        m = np.eye(3, dtype=np.result_type(center.array, r))", "E6.K7w", "Ellipse.__init__")
+
+
+# ------------------------------------------------------------------------------------------------ the unit axis of rotation from the raw representative (E18.rot)
+V("rotation: unit axis from the raw homogeneous coordinates", "C08", TRANS, "    a = axis.normalized_array[:-1]\n", "    a = axis.array[:-1]\n", "E18.rot", "rotation", quick=True)
+V("twin: rotation axis through a local for the dehomogenised point", "C08", TRANS, "    a = axis.normalized_array[:-1]\n", "    direction = axis.normalized_array\n    a = direction[:-1]\n", "silent")
